@@ -193,6 +193,15 @@ Rec(a, args, res) == IF D > 0 THEN Append(hist, [a |-> a, args |-> args, res |->
 AddCommit(ps) == /\ N < MaxCommits /\ Push(ps) /\ UNCHANGED head
                  /\ hist' = Rec("AddCommit", [ps |-> ps], "ok")
 
+\* FAULT ACTION: a chunk of a parent's stored closure cannot be read while the closures are merged (I/O error, remote store):
+\* writeFbCommitParentClosure returns the error, newCommitForValue fails, nothing is written - the graph is unchanged. (A
+\* commit that "succeeds" with whatever part of the closure was read would violate MetaExact.) The engine realises it in the
+\* amplified binding with a fault-injecting chunk store: the commit must fail without recording a head and the retry must be
+\* exact, or it must be exact straight away.
+AddCommitReadFault(ps) == /\ N < MaxCommits /\ Len(ps) >= 2
+                          /\ UNCHANGED <<par, ht, clo, head>>
+                          /\ hist' = Rec("AddCommitReadFault", [ps |-> ps], "error")
+
 \* DoltDB.CommitWithParentCommits on branch b: the branch head becomes the first parent, the given parents follow
 \* except those equal to the head (doltdb.go: `if addr != headAddr`); the branch moves to the new commit.
 BranchParents(b, extra) == IF head[b] = 0 THEN extra
